@@ -214,7 +214,7 @@ def _spec_map(conv1, conv2):
     return out
 
 
-def h_tables_pair(ctx, t1="fchk", t2="molden", lmax=5, nshell=2, twin=False):
+def h_tables_pair(ctx, t1="fchk", t2="molden", lmax=5, nshell=2, twin=False, layout="auto"):
     """convert_conventions between two built-in tables on bases over the shared shell types."""
     import iodata.convert as C
     from iodata.basis import MolecularBasis, Shell
@@ -224,8 +224,13 @@ def h_tables_pair(ctx, t1="fchk", t2="molden", lmax=5, nshell=2, twin=False):
     if not shared:
         return
     keys = [ctx.choice(shared, label=f"shell{i}") for i in range(nshell)]
-    gen = ctx.choice([False, True], label="generalized") if nshell >= 2 else False
-    if gen:
+    gen = ctx.choice([False, True], label="generalized") if nshell >= 2 and layout == "auto" else False
+    if layout == "s+gen":
+        # an ordinary shell followed by one generalized contraction holding all the other (three or more) contractions
+        rest = keys[1:]
+        shells = [Shell(0, [keys[0][0]], [keys[0][1]], [1.0], [[1.0]]),
+                  Shell(1, [k[0] for k in rest], [k[1] for k in rest], [1.0], [[1.0] * len(rest)])]
+    elif gen:
         shells = [Shell(0, [k[0] for k in keys], [k[1] for k in keys], [1.0], [[1.0] * len(keys)])]
     else:
         shells = [Shell(i, [k[0]], [k[1]], [1.0], [[1.0]]) for i, k in enumerate(keys)]
@@ -334,6 +339,12 @@ def jobs(tier):
             out.append(job("C10", f"tables-pair[{t1}->{t2}]", M, "h_tables_pair",
                            dict(t1=t1, t2=t2, lmax=lmax, nshell=2 if tier == "quick" else 3),
                            budget_s=300 if tier == "quick" else 3000, max_validate=6))
+    # a generalized contraction with three (thorough: four) contractions behind an ordinary shell
+    for t1, t2 in (("HORTON2", "CCA"), ("fchk", "molden"), ("CCA", "wfn"), ("molden-orca", "HORTON2"), ("cp2klog", "fchk")):
+        if t1 in names and t2 in names:
+            out.append(job("C10", f"tables-pair-gen[{t1}->{t2}]", M, "h_tables_pair",
+                           dict(t1=t1, t2=t2, lmax=2, nshell=4 if tier == "quick" else 5, layout="s+gen"),
+                           budget_s=300 if tier == "quick" else 3000, max_validate=6, max_paths=1500))
     out.append(job("C10", "tables-pair[twin]", M, "h_tables_pair", dict(t1="fchk", t2="wfn", lmax=2, nshell=1, twin=True),
                    expect="cex"))
     trip = [("fchk", "molden", "wfn"), ("HORTON2", "CCA", "fchk"), ("molden-orca", "molden", "fchk"),
